@@ -334,7 +334,14 @@ func runSeqBody(c SeqCase, o *h.Outcome) *h.Failure {
 			}
 		}
 		if f := check(step, desc); f != nil {
-			return f
+			// do not depend on Put being synchronous: judge only once nothing
+			// of the relay is running any more
+			if !quiesce() {
+				return h.Failf("seq/hang", "step %d (%s): relay goroutines still running after %v", step, desc, hangLimit)
+			}
+			if f = check(step, desc); f != nil {
+				return f
+			}
 		}
 	}
 
